@@ -209,7 +209,7 @@ def rule_T(ctx):
     ctx.check(vr(a) == '%s[%s]' % (calls[0].value if calls else '?', info['kv']), 'C05.R', f, 'every prepared request is examined in order',
               witness={'requested': vr(a)}, node=info['lo'], key='ref-k')
     t = unparse(f.node)
-    ctx.check('%s.setObsList(interp_points)' % info['tr'] in t or 'setObsList(' in t, 'C05.S', f, 'the track receives the interpolated observations',
+    ctx.recognise('%s.setObsList(interp_points)' % info['tr'] in t or 'setObsList(' in t, 'C05.S', f, 'the track receives the interpolated observations',
               witness={}, node=f.node, key='setobs')
 
 
@@ -232,8 +232,8 @@ def rule_L(ctx):
               witness={'range': [vr(x) for x in r] if r else None, 'expected end': '%s + 1' % N}, node=lo, key='count')
     ip = pst.env.get('interp_points')
     txt = unparse(f.node)
-    ctx.check('[%s.getFirstObs().copy()]' % tr in txt, 'C05.L', f, 'the output starts with a copy of the first fix', witness={}, node=f.node, key='first')
-    ctx.check('%s.setObsList(interp_points)' % tr in txt, 'C05.S', f, 'the track receives the interpolated observations', witness={}, node=f.node, key='setobs')
+    ctx.recognise('[%s.getFirstObs().copy()]' % tr in txt, 'C05.L', f, 'the output starts with a copy of the first fix', witness={}, node=f.node, key='first')
+    ctx.recognise('%s.setObsList(interp_points)' % tr in txt, 'C05.S', f, 'the track receives the interpolated observations', witness={}, node=f.node, key='setobs')
 
 
 def rule_R(ctx):
@@ -351,7 +351,7 @@ def rule_Z(ctx):
               'the feature table of the resampled track is reset (its observations are new)', witness={'last statement': unparse(last)}, node=last, key='reset')
     # delta from npts: spatial uses length, temporal duration
     t = unparse(g.node)
-    ctx.check('if mode == MODE_SPATIAL:\n            delta = (1 + 1e-08) * self.length() / npts\n        else:\n            delta = (1 + 1e-08) * self.duration() / npts' in t
+    ctx.recognise('if mode == MODE_SPATIAL:\n            delta = (1 + 1e-08) * self.length() / npts\n        else:\n            delta = (1 + 1e-08) * self.duration() / npts' in t
               or ('self.length() / npts' in t and 'self.duration() / npts' in t), 'C05.Z', g,
               'a point count is turned into a step from the length (spatial) or the duration (temporal)', witness={}, node=g.node, key='npts')
 
